@@ -253,6 +253,24 @@ def printed_values(out, tag=None):
 
 # ------------------------------------------------------------------ functional validation
 
+def _finite(x):
+    """JSON has no NaN / Infinity: a float that is not finite travels as its spelling"""
+    if isinstance(x, float) and (x != x or x in (float('inf'), float('-inf'))):
+        return repr(x)
+    if isinstance(x, dict):
+        return {k: _finite(v) for k, v in x.items()}
+    if isinstance(x, (list, tuple)):
+        return [_finite(v) for v in x]
+    return x
+
+
+def dumps(o):
+    try:
+        return json.dumps(o, ensure_ascii=True, allow_nan=False)
+    except ValueError:
+        return json.dumps(_finite(o), ensure_ascii=True, allow_nan=False)
+
+
 def validate_obs(run, module, obs, label='obs', constants=None, timeout=3000):
     """obs: list of dicts with unique integer 'id'.  Returns {id: verdict tuple} as decided
     by TLC running the trace specification <module> (which EXTENDS TraceKit)."""
@@ -261,7 +279,7 @@ def validate_obs(run, module, obs, label='obs', constants=None, timeout=3000):
     tf = os.path.join(scratch(), '%s_%s_%d.ndjson' % (module, label, len(os.listdir(scratch()))))
     with open(tf, 'w') as f:
         for o in obs:
-            f.write(json.dumps(o, ensure_ascii=True) + '\n')
+            f.write(dumps(o) + '\n')
     devs = sorted(set(fd['deviation'] for fd in run.findings.for_property(run.pid)))
     cfg = os.path.join(scratch(), '%s_%s.cfg' % (module, label))
     with open(cfg, 'w') as f:
@@ -287,7 +305,7 @@ def validate_hist(run, traces, label='hist', constants=None, timeout=3000, engin
     tf = os.path.join(scratch(), 'hist_%s_%d.ndjson' % (label, len(os.listdir(scratch()))))
     with open(tf, 'w') as f:
         for t in traces:
-            f.write(json.dumps({'tid': t['tid'], 'ev': t['ev']}, ensure_ascii=True) + '\n')
+            f.write(dumps({'tid': t['tid'], 'ev': t['ev']}) + '\n')
     cfg = os.path.join(scratch(), 'hist_%s.cfg' % label)
     with open(cfg, 'w') as f:
         f.write('SPECIFICATION HSpec\nINVARIANT Verdict\nCHECK_DEADLOCK FALSE\nCONSTANTS\n')
